@@ -88,3 +88,13 @@ package tss
 //@        absfn("Hash", data)))
 // a byte string that parses as a public key is a compressed (33-byte) or uncompressed (65-byte) encoding
 //@ axiom pubKeyLen: forall p Point :: absfn("Point.publicKey#1", p) == nil ==> len(p) >= 33
+
+// round-1 proofs of possession (Schnorr signatures over member id || DKG context || key): abstracted by predicates
+//@ spec validOneTimeSig(mid Int, dkg Bz, sig Signature, pub Point) Bool uninterpreted
+//@ func VerifyOneTimeSignature
+//@ trusted
+//@ ensures err == nil <==> validOneTimeSig(mid, dkgContext, signature, oneTimePub)
+//@ spec validA0Sig(mid Int, dkg Bz, sig Signature, a0 Point) Bool uninterpreted
+//@ func VerifyA0Signature
+//@ trusted
+//@ ensures err == nil <==> validA0Sig(mid, dkgContext, signature, a0Pub)
